@@ -922,6 +922,9 @@ func c13GroupsCase(in c13In) Case {
 	if shared {
 		tags = append(tags, "shared-first-column")
 	}
+	if len(in.GParts) > 12 {
+		tags = append(tags, "elements>12", fmt.Sprintf("large-permutations=%d", len(in.Hists)))
+	}
 	kb, _ := json.Marshal(in)
 	return Case{Coq: "(" + cin + ", " + cout + ")", Desc: map[string]any{"input": in, "impl": out}, Key: string(kb),
 		Nontrivial: len(in.GParts) >= 3 && len(in.GParts[0]) >= 2, Tags: tags}
@@ -948,9 +951,15 @@ func genGroupsCase(r *Rng) c13In {
 	}
 	in := c13In{Kind: "groups", Mode: hex.EncodeToString([]byte(spec)), SortKind: kind}
 	n := r.Range(3, 8)
+	reps := 2
+	firsts := []string{Pick(r, groupColValues[0]), Pick(r, groupColValues[0]), Pick(r, groupColValues[0])}
+	if ncols >= 2 && r.Chance(1, 3) { // many groups: more than the 12 elements Go sorts by insertion
+		n = r.Range(13, 38)
+		reps = 7
+		firsts = groupColValues[0]
+	}
 	seen := map[string]bool{}
 	// few first-column values, so that groups share them
-	firsts := []string{Pick(r, groupColValues[0]), Pick(r, groupColValues[0]), Pick(r, groupColValues[0])}
 	for tries := 0; len(in.GParts) < n && tries < 200; tries++ {
 		parts := []string{Pick(r, firsts)}
 		for c := 1; c < ncols; c++ {
@@ -977,7 +986,7 @@ func genGroupsCase(r *Rng) c13In {
 		}
 	}
 	in.Hists = append(in.Hists, base)
-	for rep := 0; rep < 2; rep++ { // the same samples in two more arrival orders, reads in between
+	for rep := 0; rep < reps; rep++ { // the same samples in more arrival orders, reads in between
 		perm := randPerm(r, len(samples))
 		var h []c13Ev
 		for i, x := range perm {
@@ -1091,6 +1100,9 @@ func c13TopCase(in c13In) Case {
 		lname = "contextual"
 	}
 	tags := []string{"kind=top", "via=" + in.Via, "mode=" + lname, fmt.Sprintf("groups=%d..", b.N/1000*1000)}
+	if b.N < 1000 {
+		tags = append(tags, "elements>12", fmt.Sprintf("large-permutations=%d", b.Reps))
+	}
 	switch {
 	case b.Limit >= b.N:
 		tags = append(tags, "limit=all")
@@ -1194,6 +1206,9 @@ func c13Case(in c13In) Case {
 		lname = lname[:i]
 	}
 	tags := []string{"kind=" + in.Kind}
+	if in.Kind == "sort" && len(in.Keys) > 12 {
+		tags = append(tags, "elements>12", fmt.Sprintf("large-permutations=%d", len(in.Perms)))
+	}
 	if in.HostTz != "" {
 		tags = append(tags, "host-tz:"+in.HostTz)
 	}
@@ -1816,13 +1831,21 @@ func c13Gen(r *Rng, n int, tier string) []Case {
 				k = r.Range(2, 5)
 			case y < 7:
 				k = 6
-			default:
+			case y < 8:
 				k = r.Range(6, 12)
+			default:
+				// more than 12 elements: Go's sort leaves insertion sort and partitions around pivots
+				k = Pick(r, []int{13, 14, 16, 20, 25, 33, 49, 50, 64, r.Range(13, 49), r.Range(13, 49), r.Range(50, 120)})
+				in.Via = Pick(r, []string{"SortBy", "SortBy", "counter", "table-rows", "table-cols", "Sort"})
 			}
 			in.Keys = mkKeys(r, genNames(r, rc.keys, k))
 			k = len(in.Keys)
 			if k <= 5 || (k == 6 && r.Chance(1, 3)) {
 				in.Perms = allPerms(k)
+			} else if k > 12 {
+				for i := 0; i < 10; i++ {
+					in.Perms = append(in.Perms, randPerm(r, k))
+				}
 			} else {
 				np := 50
 				for i := 0; i < np; i++ {
@@ -1899,7 +1922,7 @@ func c13Gen(r *Rng, n int, tier string) []Case {
 func genHistory(r *Rng, k int, distinct bool) []c13Ev {
 	for {
 		var h []c13Ev
-		n := r.Range(k+2, 30)
+		n := r.Range(k+2, max(30, k+12))
 		order := randPerm(r, k)
 		totals := make([]int64, k)
 		reads := 0
@@ -1949,10 +1972,22 @@ func genBigCases(r *Rng, tier string) []Case {
 		plan = append(plan, plan...)
 		plan = append(plan, bc{"table-cols", 0}, bc{"counter", 5}, bc{"counter", 2})
 	}
+	// 13..200 keys, whole view, 8 arrival orders (limit code -3)
+	mid := []bc{{"counter", -3}, {"counter", -3}, {"subkey", -3}, {"subkey", -3}, {"table-rows", -3}, {"table-rows", -3},
+		{"table-cols", -3}, {"table-cols", -3}, {"counter", -3}, {"table-rows", -3}}
+	if tier == "thorough" {
+		mid = append(mid, mid...)
+		mid = append(mid, mid...)
+	}
+	plan = append(plan, mid...)
 	for _, p := range plan {
 		b := &c13Big{Style: r.Intn(3) / 2, N: r.Range(2050, 6000), A: int64(r.Range(1, 9999)), B: int64(r.Intn(50)),
 			M: int64(Pick(r, []int{3, 7, 17, 50, 1000, 100003})), Reps: 3, PermSeed: r.U64()}
 		switch p.limit {
+		case -3:
+			b.N = Pick(r, []int{13, 17, 24, 31, 49, r.Range(13, 49), r.Range(50, 200), 200})
+			b.Limit = b.N
+			b.Reps = 8
 		case 0:
 			b.Limit = b.N
 			b.Reps = 2
@@ -2156,6 +2191,7 @@ func main() {
 			"groups = rare reduce at the library level: an AccumulatingGroup with 1..3 group columns (values from small sets, so that groups share their first column; numbers and weekday names among them), no --sort expression / --sort {sum} / --sort \"{1} {0}\", plain or reversed text / numeric / contextual NameSorter, the same samples in 3 arrival orders with reads in between and a repeated final read; " +
 			"table = a TableAggregator with 2..6 rows and columns fed 6..36 cell samples interleaved with frames (OrderedRows + OrderedColumns on persistent sorters) and Trim calls as the commands make them (spark: keep the last n columns in the column sorter's order, every frame; value predicates lo <= val <= hi; column sets), more samples after trims; the final OrderedRows or OrderedColumns (mostly value, also text / numeric / the rest, any modifier) and the set of rows / columns left are compared with the model's function of the final cells alone; " +
 			"top = 9 cases per run with 2,050..6,000 keys built from a counter (text k<i> or numbers 37*i mod 10007) and values (i*a+b) mod m (many ties), 2-3 arrival orders each: MatchCounter.ItemsSortedBy with limits 1, 2, 5, 50, groups/4-1, groups/4, groups, and SubKeyCounter.ItemsSorted / TableAggregator.OrderedRows at full length, any sort mode and modifier; the model answers firstn limit of its full (merge) sort and the boolean form checks the rows in a linear pass; " +
+			"large sorts (more than the 12 elements Go sorts by insertion): 1 in 5 sort cases has 13..120 keys from the recipes with 10 random arrangements, 10 top cases per run have 13..200 generated keys (values with many ties) with 8 arrival orders through counter / subkey counter / table rows / table columns, and 1 in 3 multi-column groups cases has 13..38 groups with 8 arrival orders; " +
 			"sort = sorting.Sort / SortBy / MatchCounter.ItemsSortedBy / TableAggregator.OrderedRows / OrderedColumns on every arrangement (<= 5 keys, sometimes 6) or 50 random arrangements (6..12 keys), fresh sorter each. " +
 			"distinct = distinct (kind, specification, keys with values, pairs/arrangements, path); non-trivial = at least 3 keys. --sort date cases whose key set is neither inside one layout nor without any layout lie in the domain of the recorded finding C13-stateful-date: they carry its kf: tag (decided from specification and keys alone) and go through Sort/SortBy only (the collectors' map order would make the run irreproducible there). Distribution tags numbers+text, equal-values, calendar-mixture, calendar-tie, equal-instants mark the key sets the repaired comparators are about.",
 		Gen: c13Gen,
